@@ -38,6 +38,14 @@ reg('C20',
     'min_std/var_scale >= 1e-3; NumPy/float64 reference; brax.v1 import stubbed (type aliases only)',
     'DESIGN.md section 4 C20')
 
+reg('C17',
+    'model-based testing: exhaustive DFS of all operation sequences in a small scope against a Python list model + Hypothesis-generated long histories (pytrees, eager/jit, sharded wrappers on forced host devices)',
+    'Exhaustive up to the bound: every sequence of {insert k, sample} of length <= 7 (quick 5) for capacity 1-5 x batch 1-4 x {plain, cyclic, uniform} '
+    'agrees with the list model after every operation (held records in order, cursors, size(), returned batch or refusal); Pmap/Pjit wrappers with 2 and 4 '
+    'forced host devices exhaustively to depth 4 (quick 3) for per-shard capacity <= 3 (quick 2); beyond that sampled histories of up to 40 ops, capacity <= 64.',
+    'list model written from the property text; forced host CPU devices stand in for accelerators; uniform queue never sampled empty',
+    'DESIGN.md section 4 C17')
+
 PENDING = {}
 
 
